@@ -14,8 +14,15 @@ pub fn calculate_scopes(count: u32) -> Vec<CalculationScope> {
     for i in 0..count {
         let x: f32 = 48.0 - 48.0 * (1.0 - (i as f32 + 1.0) / count as f32).sqrt();
 
-        let turn_to = x.floor() as u8;
-        let river_to = ((48 - turn_to) as f32 * (x % 1.0)).ceil() as u8 + turn_to + 1;
+        let mut turn_to = x.floor() as u8;
+        let mut river_to = ((48 - turn_to) as f32 * (x % 1.0)).ceil() as u8 + turn_to + 1;
+
+        // the river index only goes up to 48: past the end of a turn row means the
+        // first position of the next row (or the terminal position (48, 49))
+        if river_to > 48 && turn_to < 48 {
+            turn_to += 1;
+            river_to = turn_to + 1;
+        }
 
         scopes.push(CalculationScope {
             turn_from: prev_t,
